@@ -5,9 +5,7 @@
 //!   e1_layout replay <PROP> <case.json>          (exit 0: holds, exit 1: violated)
 //!   e1_layout gen <history.json> <fragsel 0..3>  (prints a digest of offsets + generated code)
 
-mod c12;
-mod c18;
-mod layout;
+use e1_layout::{c12, c18, layout};
 
 use std::{fs, process::ExitCode};
 
